@@ -20,6 +20,16 @@ PROPS = {
             "the in-memory stream branch of recv_frame added by the hook mirrors the socket branch; the socket branch itself is exercised by the tcp op",
         ],
     },
+    "C13": {
+        "lean_modules": ["RdestModel.Props.C13"],
+        "cases": {"quick": 4000, "thorough": 150000},
+        "rule": "random manager states: 3..40 pieces with status mixes in four regimes (mostly missing .. nearly done, and exactly 9/10/11 non-Have "
+                "pieces around END_GAME_LIMIT), 1..6 peers with random advertised sets of density 10..95%, a target peer; the real "
+                "Session::choose_piece_index is called 8 times per state (different shuffles); every answer must lie in the admissible set of the "
+                "theorem (eligible and of minimal availability; none iff nothing eligible); distinct = distinct argument lines",
+        "assumptions": STD_ASSUME_PURE + ["rand's shuffle returns a permutation (any permutation is covered by the theorem)",
+                                           "'being fetched from another peer' is read as the manager's own Reserved bookkeeping (its truthfulness is C12)"],
+    },
     "C07": {
         "lean_modules": ["RdestModel.Props.C07"],
         "cases": {"quick": 6000, "thorough": 200000},
